@@ -448,6 +448,19 @@ func scenarios(tier string) []sched.Scenario {
 	gen(nil)
 	for si := range scripts {
 		for _, l := range lists {
+			if si >= 8 {
+				// without read delay the next chunk may be consumed before a trigger that still holds (no reset) is
+				// evaluated again; the property does not order the two, the reference does: keep to resetting kinds
+				skip := false
+				for _, k := range l {
+					if kinds[k].noReset {
+						skip = true
+					}
+				}
+				if skip {
+					continue
+				}
+			}
 			b := sched.Bounds{Env: 1, Pre: 1, Total: 1}
 			if tier == "thorough" {
 				b = sched.Bounds{Env: 2, Pre: 2, Total: 2}
